@@ -268,6 +268,7 @@ class Executor:
         self.max_depth = max_depth
         self.paths = []
         self.solver = z3.Solver()
+        self._lits = {}
         self.solver_time = 0.0
         self.queries = 0
         self.names = {}
@@ -798,18 +799,26 @@ class Executor:
         raise Unsupported("cast %s to %s (%s)" % (v, ty, kind))
 
     # ---- solver ----------------------------------------------------------------------------------
+    def _lit(self, c):
+        """assumption literal standing for constraint c (asserted once as lit => c in the shared solver)"""
+        k = c.get_id()
+        e = self._lits.get(k)
+        if e is None:
+            l = z3.Bool("pc!%d" % len(self._lits))
+            self.solver.add(z3.Implies(l, c))
+            e = (l, c)      # keep c alive so that its id stays unique
+            self._lits[k] = e
+        return e[0]
+
     def feasible(self, st, extra=None):
         import time
-        self.solver.push()
-        for c in st.pc:
-            self.solver.add(c)
+        lits = [self._lit(c) for c in st.pc if not z3.is_true(c)]
         if extra is not None:
-            self.solver.add(extra)
+            lits.append(self._lit(extra))
         t0 = time.time()
-        r = self.solver.check()
+        r = self.solver.check(*lits)
         self.solver_time += time.time() - t0
         self.queries += 1
-        self.solver.pop()
         return r != z3.unsat
 
     # ---- execution ---------------------------------------------------------------------------------
